@@ -118,6 +118,18 @@ def Call.isHead : Call → Bool
   | .resolveBlob .. | .resolveManifest .. | .resolveTag .. => true
   | _ => false
 
+/-- the digest a call names (reads, resolves and mounts BY DIGEST): F31 -/
+def Call.requested : Call → Option Bytes
+  | .getBlob _ dg | .getBlobRange _ dg _ _ | .getManifest _ dg | .resolveBlob _ dg | .resolveManifest _ dg
+  | .mountBlob _ _ dg => some dg
+  | _ => none
+
+/-- the descriptor of a successful result -/
+def Result.desc? : Result → Option Desc
+  | .desc d => some d
+  | .reader d _ _ => some d
+  | _ => none
+
 /-- The backend's successful answer as it arrives: what the wire carries of it. -/
 def expectOk (cfg : Cfg) : Call → BRes → Result
   | .getBlob _ dg, .reader d content =>
@@ -127,17 +139,18 @@ def expectOk (cfg : Cfg) : Call → BRes → Result
     else if o0 ≤ d.size then .reader { mediaType := orOctetStream d.mediaType, digest := dg, size := d.size } false content
     else .fail (faultOf cfg false (mar cfg (serrErr .range416)))
   | .getManifest _ dg, .reader d content =>
-    .reader { mediaType := orOctetStream d.mediaType, digest := if cfg.o.omitDigest then dg else d.digest, size := d.size }
-      true content
+    -- F31 (client.go `descriptorFromResponse`, reader.go:141): the digest asked for, with or without the header
+    .reader { mediaType := orOctetStream d.mediaType, digest := dg, size := d.size } true content
   | .getTag _ _, .reader d content =>
     .reader { mediaType := orOctetStream d.mediaType, digest := d.digest, size := d.size } true content
-  | .resolveBlob _ _, .desc d => .desc { mediaType := octetStream, digest := d.digest, size := d.size }
-  | .resolveManifest _ dg, .desc d =>
-    .desc { mediaType := orOctetStream d.mediaType, digest := if cfg.o.omitDigest then dg else d.digest, size := d.size }
+  -- F31 (reader.go:100 `resolve`): a resolve by digest reports the digest asked for, not the header's
+  | .resolveBlob _ dg, .desc d => .desc { mediaType := octetStream, digest := dg, size := d.size }
+  | .resolveManifest _ dg, .desc d => .desc { mediaType := orOctetStream d.mediaType, digest := dg, size := d.size }
   | .resolveTag _ _, .desc d => .desc { mediaType := orOctetStream d.mediaType, digest := d.digest, size := d.size }
   | .pushManifest _ _ content mt, .desc _ =>
     .desc { mediaType := mt, digest := cfg.H content, size := content.length }
-  | .mountBlob _ _ _, .desc d => .desc { mediaType := octetStream, digest := d.digest, size := 0 }
+  -- F31 (writer.go:86 `MountBlob`): the digest asked to be mounted, not the header's
+  | .mountBlob _ _ dg, .desc _ => .desc { mediaType := octetStream, digest := dg, size := 0 }
   | .deleteBlob .., .unit | .deleteManifest .., .unit | .deleteTag .., .unit => .unit
   | .startUpload repo cs, .writer id _ chunk =>
     .writer (uploadLoc repo id) (if chunk > ownChunk cs then chunk else ownChunk cs) 0
@@ -190,16 +203,23 @@ def Equiv (cfg : Cfg) (c : Call) (res : Result) : Answer → Prop
   | .ok (.items l) => res = .items l none
   | .ok (.descs l) => res = .descs l
 
-/-- The backend's answer agrees with the request, as a registry's does: a blob read is described by the
-digest it was asked for; a pushed manifest by the hash, length and media type of what was pushed; a
-committed upload by the digest it was committed under and the bytes written; a range read starts inside
-the blob. Where the client does not read the answer but reports its own account (`PushManifest`, `Commit`)
-or the digest it asked for (`GetBlob`), this is what makes the two the same. -/
+/-- The backend's answer agrees with the request, as a registry's does: whatever is read, resolved or mounted
+BY DIGEST is described by the digest it was asked for; a pushed manifest by the hash, length and media type of
+what was pushed; a committed upload by the digest it was committed under and the bytes written; a range read
+starts inside the blob. Where the client does not read the answer but reports its own account (`PushManifest`,
+`Commit`) or the digest it asked for (every call by digest, since fix F31), this is what makes the two the same.
+
+F31: `GetManifest` / `ResolveManifest` used to need this only under `OmitDigestFromTagGetResponse`, and
+`ResolveBlob` / `MountBlob` not at all (the client reported the `Docker-Content-Digest` header); the client now
+reports the digest asked for in all of them (client.go `descriptorFromResponse`: `if knownDigest != "" { digest =
+knownDigest }`; callers reader.go:63, :100, :141, writer.go:86). -/
 def Faithful (cfg : Cfg) : Call → Answer → Prop
   | .getBlob _ dg, .ok (.reader d _) => d.digest = dg
   | .getBlobRange _ dg o0 _, .ok (.reader d _) => d.digest = dg ∧ o0 ≤ d.size
-  | .getManifest _ dg, .ok (.reader d _) => cfg.o.omitDigest = true → d.digest = dg
-  | .resolveManifest _ dg, .ok (.desc d) => cfg.o.omitDigest = true → d.digest = dg
+  | .getManifest _ dg, .ok (.reader d _) => d.digest = dg
+  | .resolveBlob _ dg, .ok (.desc d) => d.digest = dg
+  | .resolveManifest _ dg, .ok (.desc d) => d.digest = dg
+  | .mountBlob _ _ dg, .ok (.desc d) => d.digest = dg
   | .pushManifest _ _ content mt, .ok (.desc d) =>
     d.digest = cfg.H content ∧ d.size = content.length ∧ orOctetStream d.mediaType = mt
   | .uploadCommit _ _ start _ data dg, .ok (.commit _ d) => d.digest = dg ∧ d.size = start + data.length
